@@ -139,6 +139,14 @@ def step(w, kind, op):
         dst = w.unit(op[3])
         r = w.q(op[1], op[2]).in_unit(dst)
         return enc_q(w, r, dst)
+    if kind == "chain":
+        units = [w.unit(t) for t in op[2]]
+        q = m.Quantity(M.dec_mag(op[1]), units[0])
+        out = []
+        for u in units[1:]:
+            q = q.in_unit(u)
+            out.append(M.enc_mag(q.magnitude))
+        return out
     if kind in ("eq", "ne", "lt", "le", "gt", "ge"):
         a, b = w.q(op[1], op[2]), w.q(op[3], op[4])
         import operator
